@@ -470,7 +470,12 @@ func (e *Env) c19Selector(run *ssa.Function) {
 		return
 	}
 	isPred := func(n *core.Node) bool {
-		return n.IsDynCall() && n.Kind != core.KAfter && fieldOfLoad(n.Call.Value) != nil && fieldOfLoad(n.Call.Value).Name() == "includeFunc"
+		if !n.IsDynCall() || n.Kind == core.KAfter || fieldOfLoad(n.Call.Value) == nil {
+			return false
+		}
+		// the selection predicate: a function-typed field taking an IP and returning bool
+		sig, ok := fieldOfLoad(n.Call.Value).Type().Underlying().(*types.Signature)
+		return ok && sig.Params().Len() == 1 && sig.Results().Len() == 1 && isBoolType(sig.Results().At(0).Type())
 	}
 	isSendN := func(n *core.Node) bool { _, ok := isPortSend(n); return ok && n.Kind != core.KAfter }
 	// outer loop head: the comma-ok receive from the syncRead channel
